@@ -8,7 +8,7 @@ from decimal import Decimal
 
 from hypothesis import strategies as st
 
-from vp.core import Disc, Recorder, derive_seed, escape_bucket, hyp_collect, hyp_shrink
+from vp.core import canon, Disc, Recorder, derive_seed, escape_bucket, hyp_collect, hyp_shrink
 
 PROPERTY = 'C17'
 LEVEL = 'exploration'
@@ -44,7 +44,8 @@ FLOORS = {
     'jt:escape-sequence': (0.3, 'jt:case'), 'jt:invisible-astral': (0.08, 'jt:case'), 'jt:invisible-bmp': (0.1, 'jt:case'),
     'jv:invisible-astral': (0.08, 'jv:case'), 'jt:number-frac-or-exp': (0.2, 'jt:case'),
     'xml:namespace': (0.2, 'xml:case'), 'xml:non-element-child': (0.3, 'xml:case'), 'xml:special-char': (0.3, 'xml:case'),
-    'xml:inner-target-with-tail': (0.05, 'xml:case'), 'xh:inner-tail-then-ancestor': (0.3, 'xh:case'), 'xh:per-item-expression-n>=2': (0.4, 'xh:case'),
+    'xml:inner-target-with-tail': (0.04, 'xml:case'), 'xml:doc-misc': (0.15, 'xml:case'), 'xml:doc-misc-before-and-after': (0.08, 'xml:case'), 'xh:inner-tail-then-ancestor': (0.3, 'xh:case'), 'jo:name-recurs-across-objects': (0.6, 'jo:case'), 'xh:per-item-expression-n>=2': (0.4, 'xh:case'), 'xh:ns-map-step': (0.6, 'xh:case'),
+    'xh:ns-map-uri-after-another-namespace(et)': (0.05, 'xh:case'),
 }
 
 FN_NS = 'http://www.w3.org/2005/xpath-functions'
@@ -231,7 +232,7 @@ def _loads_strict(text):
 _ROOT = None
 
 
-def _ev(expr, variables=None, root=None, item=None):
+def _ev(expr, variables=None, root=None, item=None, namespaces=None):
     import xml.etree.ElementTree as ET
     from elementpath import XPathContext
     from elementpath.xpath31 import XPath31Parser
@@ -243,15 +244,18 @@ def _ev(expr, variables=None, root=None, item=None):
     kw = {'variables': variables} if variables else {}
     if item is not None:
         kw['item'] = item
+    if namespaces:
+        kw['namespaces'] = namespaces
     if '$v' in expr:                     # generated constructor expressions: compiled per case
         tok = XPath31Parser().parse(expr)
     else:                                # fixed expressions: ONE compiled token evaluated over all documents and contexts
-        tok = _TOKEN_CACHE.get(expr)
+        key = expr if not namespaces else expr + ' ' + canon(namespaces)
+        tok = _TOKEN_CACHE.get(key)
         if tok is None:
-            tok = XPath31Parser().parse(expr)
-            if len(_TOKEN_CACHE) < 64:
-                _TOKEN_CACHE[expr] = tok
-        _TOKEN_USES[expr] = _TOKEN_USES.get(expr, 0) + 1
+            tok = XPath31Parser(namespaces=namespaces).parse(expr)
+            if len(_TOKEN_CACHE) < 400:
+                _TOKEN_CACHE[key] = tok
+        _TOKEN_USES[key] = _TOKEN_USES.get(key, 0) + 1
     return tok.evaluate(XPathContext(root, **kw))
 
 
@@ -806,10 +810,15 @@ def _xelem(draw, depth=0):
             'tl': draw(_xtail)}
 
 
+_doc_misc = st.one_of(_comment_text.map(lambda v: {'k': 'c', 'v': v}), _pi.map(lambda p: {'k': 'p', 'tg': p[0], 'v': p[1]}),
+                      st.sampled_from([{'k': 'p', 'tg': 'xml-stylesheet', 'v': 'href="a.css" type="text/css"'},
+                                       {'k': 'c', 'v': ' Licensed under the terms of X '}, {'k': 'c', 'v': 'end'}]))
 xml_case = st.fixed_dictionaries({
     'root': _xelem(), 'backend': st.sampled_from(['et', 'et', 'lxml']), 'top': st.sampled_from(['element', 'document']),
-    'fn': st.sampled_from(['parse-xml', 'parse-xml', 'parse-xml-fragment']), 'target': st.integers(0, 30), 'pre': st.lists(st.one_of(_comment_text.map(lambda v: {'k': 'c', 'v': v}),
-                                                            _pi.map(lambda p: {'k': 'p', 'tg': p[0], 'v': p[1]})), max_size=2)})
+    'fn': st.sampled_from(['parse-xml', 'parse-xml', 'parse-xml-fragment']), 'target': st.integers(0, 30),
+    'pre': st.lists(_doc_misc, max_size=2), 'post': st.lists(_doc_misc, max_size=2),
+    # document focus: lxml document node with comments / PIs before and after the root element as the target of serialize
+    'doc_focus': st.sampled_from([False, False, True]), 'wrap': st.sampled_from(['none', 'none', 'array', 'paren'])})
 
 
 def _clark(ns, local):
@@ -860,8 +869,10 @@ def _build(case):
     if case['top'] == 'document':
         tree = E.ElementTree(root)
         if lx:
-            for m in reversed(case['pre']):
+            for m in case['pre']:
                 root.addprevious(E.Comment(m['v']) if m['k'] == 'c' else E.ProcessingInstruction(m['tg'], m['v']))
+            for m in reversed(case.get('post', [])):
+                root.addnext(E.Comment(m['v']) if m['k'] == 'c' else E.ProcessingInstruction(m['tg'], m['v']))
         return tree, elems
     return root, elems
 
@@ -1050,11 +1061,31 @@ def _unique_xml_ids(case):
     return case
 
 
-def _roundtrip_discs(prefix, top, item, ref, pre, cls, root=None, fn='parse-xml'):
+_SER_EXPR = {'none': 'serialize(.)', 'array': 'serialize([.])', 'paren': 'serialize((.))'}
+
+
+def _ns_pollution():
+    """entries of the process-wide xml.etree.ElementTree._namespace_map with a generated-looking prefix: ElementTree
+    reserves ns<N> for the prefixes it invents per serialisation, so none may ever be registered globally"""
+    import xml.etree.ElementTree as ET
+    return {u: p for u, p in ET._namespace_map.items() if re.fullmatch(r'ns\d+', p)}
+
+
+def _ns_check(prefix, discs, where):
+    import xml.etree.ElementTree as ET
+    bad = _ns_pollution()
+    if bad:
+        discs.append(Disc(f'{prefix}/etree-namespace-map-polluted', 'no ns<N> prefix in xml.etree.ElementTree._namespace_map', bad, where))
+        for u in bad:                       # re-synchronise the process-wide state
+            del ET._namespace_map[u]
+
+
+def _roundtrip_discs(prefix, top, item, ref, pre, cls, root=None, fn='parse-xml', post=(), wrap='none'):
     """serialize(.) of one node, the text through the stdlib parser and through parse-xml, both against the model"""
     discs: list[Disc] = []
     text, d = _call(prefix + '/serialize', lambda code: 'doc-misc' if pre and code == 'SENR0001' else cls,
-                    lambda: _ev('serialize(.)', root=top if root is None else root, item=item))
+                    lambda: _ev(_SER_EXPR[wrap], root=top if root is None else root, item=item))
+    _ns_check(prefix, discs, 'after ' + _SER_EXPR[wrap])
     if d:
         discs.append(d)
     elif not isinstance(text, str):
@@ -1078,14 +1109,21 @@ def _roundtrip_discs(prefix, top, item, ref, pre, cls, root=None, fn='parse-xml'
         else:
             if isinstance(back, list) and len(back) == 1:
                 back = back[0]
-            gm = _de_view(_node_model(back))
+            full = _node_model(back)
+            gm = _de_view(full)
             if gm[0] != 'd':
                 discs.append(Disc(f'{prefix}/roundtrip/not-a-document', 'document-node()', gm[0], where))
             else:
                 want = _de_view(('d', [ref]))
-                df = _xdiff(want, gm)
+                df = _xdiff(want, gm)               # what fn:deep-equal inspects
                 if df:
                     discs.append(Disc(f'{prefix}/roundtrip/{df[0]}', df[1], df[2], f'{fn}: at {df[3]} {where}'))
+                else:
+                    # full structure: comments and processing instructions, also next to the root element
+                    df = _xdiff(('d', list(pre) + [ref] + list(post)), full)
+                    if df:
+                        lvl = 'document-level' if df[3].count('/') <= 1 and (pre or post) else 'inner'
+                        discs.append(Disc(f'{prefix}/roundtrip-full/{lvl}/{df[0]}', df[1], df[2], f'{fn}: at {df[3]} {where}'))
     return discs
 
 
@@ -1096,39 +1134,54 @@ def _has_misc(e):
 def _usable_fn(case, spec_e, rec, tag):
     """parse-xml-fragment on the ElementTree data model drops comments and PIs (same root cause as the repaired parse-xml
     defect, proposed/C17/fix13.diff): such draws fall back to parse-xml and are counted"""
-    fn = case.get('fn', 'parse-xml')
-    if fn == 'parse-xml-fragment' and case['backend'] == 'et' and _has_misc(spec_e):
-        if rec is not None:
-            rec.cls(tag + ':fragment-avoided(et+comment/pi)')
-        return 'parse-xml'
-    return fn
+    return case.get('fn', 'parse-xml')          # the parse-xml-fragment defect was repaired (fix13): nothing is avoided
+
+
+def _doc_focus(case):
+    # serialize writes a document-level PI as '<?t v?>'.replace(' ?>', '?>'): a value ending in a blank loses it (defect of
+    # the fix10 code, repair proposed as proposed/C17/fix14.diff); until then such values are trimmed by construction
+    trim = lambda ms: [dict(m, v=m['v'].rstrip(' ') or None) if m['k'] == 'p' and m['v'] else m for m in ms]
+    case = dict(case, pre=trim(case['pre']), post=trim(case.get('post', [])))
+    if case.get('doc_focus'):
+        case = dict(case, backend='lxml', top='document', target=-1)
+        if not case['pre'] and not case.get('post'):
+            case['pre'] = [{'k': 'p', 'tg': 'xml-stylesheet', 'v': 'href="a.css"'}]
+            case['post'] = [{'k': 'c', 'v': 'end'}]
+    return case
+
+
+def _misc_models(ms):
+    return [('c', m['v']) if m['k'] == 'c' else ('p', m['tg'], m['v'] or '') for m in ms]
 
 
 def judge_xml(case, rec: Recorder | None = None) -> list[Disc]:
     discs: list[Disc] = []
-    case = _unique_xml_ids(case)
+    case = _doc_focus(_unique_xml_ids(case))
     top, elems = _build(case)
     n = len(elems)
-    idx = case['target'] % (n + 1)        # n = the top node itself
+    idx = n if case['target'] == -1 else case['target'] % (n + 1)        # n = the top node itself
     doc_target = idx == n
     spec_e = case['root'] if doc_target else _find_spec(case['root'], idx, [0])
     ref = _spec_model(spec_e)
     lx = case['backend'] == 'lxml'
-    pre = [('c', m['v']) if m['k'] == 'c' else ('p', m['tg'], m['v'] or '') for m in case['pre']] \
-        if (lx and case['top'] == 'document' and doc_target) else []
+    doc_level = lx and case['top'] == 'document' and doc_target
+    pre = _misc_models(case['pre']) if doc_level else []
+    post = _misc_models(case.get('post', [])) if doc_level else []
     feats: set = set()
     _tree_features(spec_e, feats)
     inner_tail = (not doc_target) and idx > 0 and bool(spec_e['tl'])
-    cls = 'tail' if inner_tail else 'cr' if 'cr' in feats else 'doc-misc' if pre else 'plain'
+    cls = 'tail' if inner_tail else 'cr' if 'cr' in feats else 'doc-misc' if pre or post else 'plain'
     prefix = f'C17/xml/{case["backend"]}'
     item = None if doc_target else elems[idx]
     fn = _usable_fn(case, spec_e, rec, 'xml')
-    discs += _roundtrip_discs(prefix, top, item, ref, pre, cls, fn=fn)
+    discs += _roundtrip_discs(prefix, top, item, ref, pre, cls, fn=fn, post=post, wrap=case.get('wrap', 'none'))
     if rec is not None:
         classes = ['xml:case', 'xml:' + case['backend'], 'xml:top-' + case['top']] + \
                   (['xml:namespace'] if 'ns' in feats else []) + (['xml:non-element-child'] if feats & {'misc', 'text'} else []) + \
                   (['xml:special-char'] if 'special' in feats else []) + (['xml:inner-target-with-tail'] if inner_tail else []) + \
-                  (['xml:cr'] if 'cr' in feats else []) + (['xml:doc-misc'] if pre else [])
+                  (['xml:cr'] if 'cr' in feats else []) + (['xml:doc-misc'] if pre or post else []) + \
+                  (['xml:doc-misc-before-and-after'] if pre and post else []) + (['xml:lxml-document-target'] if lx and doc_target and case['top'] == 'document' else []) + \
+                  (['xml:serialize-' + case.get('wrap', 'none')])
         rec.case(['xml', case], nontrivial=bool(feats & {'ns', 'misc', 'text', 'tail'}),
                  sample={'check': 'xml', 'backend': case['backend'], 'target': idx, 'n_elements': n}, classes=classes)
     return discs
@@ -1192,7 +1245,11 @@ def _xml_history_case(draw):
             'pre': [], 'targets': picks, 'shared_node_tree': draw(st.booleans()),
             'fn': draw(st.sampled_from(['parse-xml', 'parse-xml', 'parse-xml-fragment'])),
             # one expression that calls the parse function once per element of the tree
-            'per_item': draw(st.sampled_from([None, 'for', 'bang', 'for', 'bang']))}
+            'per_item': draw(st.sampled_from([None, 'for', 'bang', 'for', 'bang'])),
+            # a serialize() call under a namespaces map with generated-looking prefixes (as copied from documents written by
+            # ElementTree) before the first and before the last step; its own outcome is not judged
+            'ns_map': draw(st.sampled_from([None, {'ns0': 'urn:p'}, {'ns0': 'urn:q', 'ns1': 'urn:p'}, {'ns1': 'urn:d'}, {'ns0': 'urn:d'},
+                                            {'ns2': 'urn:q', 'ns0': 'urn:p'}, {'ns0': 'urn:q'}]))}
 
 
 xml_history_case = _xml_history_case()
@@ -1238,6 +1295,13 @@ def judge_xml_history(case, rec: Recorder | None = None) -> list[Disc]:
     seen_inner_tail = False
     inner_then_ancestor = False
     for step, t in enumerate(case['targets']):
+        if case.get('ns_map') and step in (0, len(case['targets']) - 1):
+            from elementpath import ElementPathError
+            try:
+                _ev('serialize(.)', root=top, item=elems[0], namespaces=case['ns_map'])
+            except (ElementPathError, ValueError):       # ElementTree refuses reserved prefixes: an error is fine here
+                pass
+            _ns_check(prefix, discs, f'step {step}: serialize(.) with namespaces={case["ns_map"]}')
         i = t % (n + 1)
         doc_target = i == n
         spec_e = case['root'] if doc_target else _find_spec(case['root'], i, [0])
@@ -1291,6 +1355,21 @@ def judge_xml_history(case, rec: Recorder | None = None) -> list[Disc]:
             rec.cls('xh:per-item-expression')
             if n >= 2:
                 rec.cls('xh:per-item-expression-n>=2')
+        if case.get('ns_map'):
+            uris = set(case['ns_map'].values())
+            used = []
+
+            def walk(e):
+                for u in [e['ns']] + [a[0] for a in e['a']]:
+                    if u and u.startswith('urn:') and u not in used:
+                        used.append(u)
+                for c in e['c']:
+                    if c['k'] == 'e':
+                        walk(c)
+            walk(case['root'])
+            rec.cls('xh:ns-map-step')
+            if any(u in uris for u in used[1:]) and case['backend'] == 'et':
+                rec.cls('xh:ns-map-uri-after-another-namespace(et)')
         classes = ['xh:case', 'xh:' + case['backend']] + (['xh:inner-tail-then-ancestor'] if inner_then_ancestor else []) + \
                   (['xh:inner-tail-step'] if seen_inner_tail else []) + (['xh:shared-node-tree'] if shared is not None else [])
         rec.case(['xh', case], nontrivial=seen_inner_tail, sample={'check': 'xml_history', 'backend': case['backend'],
@@ -1300,12 +1379,123 @@ def judge_xml_history(case, rec: Recorder | None = None) -> list[Disc]:
 
 
 # --------------------------------------------------------------------------
+# (6) json-to-xml / parse-json with non-default options on texts whose member names recur ACROSS objects
+# --------------------------------------------------------------------------
+_REC_KEYS = ['id', 'tags', 'a', 'name', 'k', 'items', '1e5', 'a b']      # no solidus or backslash: escape=true re-escapes them (known, outside the statement)
+_rec_atom = st.one_of(st.integers(-5, 100), st.sampled_from([None, True, False, 1.5, 'x', 'a', '', 'id', 'tags', '1e5', 'true', 'a b']))
+
+
+@st.composite
+def _rec_object(draw, depth, keys=None):
+    if keys is None:
+        keys = draw(st.lists(st.sampled_from(_REC_KEYS), min_size=1, max_size=3, unique=True))
+    obj = {}
+    for k in keys:
+        kind = draw(st.integers(0, 9))
+        if depth < 3 and kind < 3:
+            # a child object that reuses the names of its parent
+            obj[k] = draw(_rec_object(depth + 1, keys if draw(st.booleans()) else None))
+        elif depth < 3 and kind < 5:
+            obj[k] = [draw(st.one_of(_rec_atom, _rec_object(depth + 1, keys))) for _ in range(draw(st.integers(0, 3)))]
+        else:
+            obj[k] = draw(_rec_atom)
+    return obj
+
+
+@st.composite
+def _records_text(draw):
+    shape = draw(st.integers(0, 4))
+    keys = draw(st.lists(st.sampled_from(_REC_KEYS), min_size=1, max_size=3, unique=True))
+    if shape <= 1:       # array of records with one key set
+        v = [draw(_rec_object(1, keys)) for _ in range(draw(st.integers(2, 4)))]
+    elif shape == 2:     # a child reusing its parent's key, several levels
+        v = None
+        for _ in range(draw(st.integers(2, 4))):
+            v = {keys[0]: v}
+    elif shape == 3:     # sibling objects with equal keys
+        v = {k2: draw(_rec_object(1, keys)) for k2 in draw(st.lists(st.sampled_from(['x', 'y', 'z'] + keys), min_size=2, max_size=3, unique=True))}
+    else:
+        v = draw(_rec_object(0))
+    sep = draw(st.sampled_from([(',', ':'), (', ', ': '), (' ,\n', ' : ')]))
+    return json.dumps(v, separators=sep, ensure_ascii=draw(st.booleans()))
+
+
+@st.composite
+def _json_options_case(draw):
+    fn = draw(st.sampled_from(['json-to-xml', 'json-to-xml', 'parse-json']))
+    opts = {}
+    if draw(st.integers(0, 9)) < 8:
+        opts['duplicates'] = draw(st.sampled_from(['use-first', 'reject', 'retain'] if fn == 'json-to-xml' else ['use-first', 'reject', 'use-last']))
+    if fn == 'json-to-xml' and draw(st.integers(0, 3)) == 0 and opts.get('duplicates') != 'retain':
+        opts['validate'] = True
+    for k in ('liberal', 'escape'):
+        if draw(st.integers(0, 4)) == 0:
+            opts[k] = draw(st.booleans())
+    if not opts:
+        opts['duplicates'] = 'use-first'
+    return {'t': draw(_records_text()), 'fn': fn, 'opts': opts}
+
+
+json_options_case = _json_options_case()
+
+
+def _opts_expr(opts):
+    parts = []
+    for k in sorted(opts):
+        v = opts[k]
+        parts.append("'%s': %s" % (k, ('true()' if v else 'false()') if isinstance(v, bool) else "'%s'" % v))
+    return 'map{' + ', '.join(parts) + '}'
+
+
+def judge_json_options(case, rec: Recorder | None = None) -> list[Disc]:
+    discs: list[Disc] = []
+    t, fn, opts = case['t'], case['fn'], case['opts']
+    dups: list = []
+    pv = json.loads(t, object_pairs_hook=_pairs_hook(dups))
+    if dups:
+        raise ValueError('generator produced duplicate member names inside one object')
+    ocls = 'duplicates=' + str(opts.get('duplicates', 'default')) + ('+validate' if opts.get('validate') else '')
+    pre = f'C17/json-options/{fn}'
+    oe = _opts_expr(opts)
+    if fn == 'parse-json':
+        back, d = _call(pre, lambda code: ocls, lambda: _ev(f'parse-json($t, {oe})', {'t': t}))
+        if d:
+            d.detail = f't={t[:200]!r} options={oe}'
+            discs.append(d)
+        else:
+            df = diff(py_model(pv), xdm_model(back))
+            if df:
+                discs.append(Disc(f'{pre}/differs/{df[0]}/{ocls}', df[1], df[2], f't={t[:200]!r} options={oe}'))
+    else:
+        out, d = _call(pre, lambda code: ocls, lambda: _ev(f'xml-to-json(json-to-xml($t, {oe}))', {'t': t}))
+        if d:
+            d.detail = f't={t[:200]!r} options={oe}'
+            discs.append(d)
+        else:
+            try:
+                got = _loads_strict(out)
+            except (ValueError, TypeError) as e:
+                discs.append(Disc(f'{pre}/unparsable/{ocls}', 'JSON text', str(out)[:200], f't={t[:200]!r} options={oe} {e}'))
+            else:
+                df = diff(py_model(pv), py_model(got))
+                if df:
+                    discs.append(Disc(f'{pre}/differs/{df[0]}/{ocls}', df[1], df[2], f't={t[:200]!r} options={oe} out={out[:200]!r}'))
+    if rec is not None:
+        names = [k for kind, k in _walk_py(pv) if kind == 'key']
+        recur = len(names) != len(set(names))
+        rec.case(['jo', case], nontrivial=recur, sample={'check': 'json_options', **case},
+                 classes=['jo:case', 'jo:' + fn] + (['jo:name-recurs-across-objects'] if recur else []) +
+                 (['jo:duplicates-' + opts['duplicates']] if 'duplicates' in opts else []) + (['jo:validate'] if opts.get('validate') else []))
+    return discs
+
+
+# --------------------------------------------------------------------------
 # module interface
 # --------------------------------------------------------------------------
 _STRATS = {'json_value': json_value_case, 'json_text': json_text_case, 'json_invalid': json_invalid_case, 'xml': xml_case,
-           'xml_history': xml_history_case}
+           'xml_history': xml_history_case, 'json_options': json_options_case}
 _JUDGES = {'json_value': judge_json_value, 'json_text': judge_json_text, 'json_invalid': judge_json_invalid, 'xml': judge_xml,
-           'xml_history': judge_xml_history}
+           'xml_history': judge_xml_history, 'json_options': judge_json_options}
 
 
 def selftest():
@@ -1337,9 +1527,9 @@ def selftest():
 
 def jobs(tier, seed):
     q = tier == 'quick'
-    plan = {'json_value': (4, 1500) if q else (4, 30000), 'json_text': (4, 1500) if q else (5, 30000),
+    plan = {'json_value': (4, 1500) if q else (4, 30000), 'json_text': (3, 1800) if q else (4, 36000),
             'json_invalid': (1, 1000) if q else (1, 20000), 'xml': (4, 1000) if q else (4, 20000),
-            'xml_history': (3, 400) if q else (2, 12000)}
+            'xml_history': (3, 400) if q else (2, 12000), 'json_options': (1, 2000) if q else (1, 30000)}
     out = []
     for chk, (shards, n) in plan.items():
         for i in range(shards):
